@@ -189,3 +189,24 @@ Example C16_example_doc :
   /\ doc_of (bs "A") [bs "Apple pie"] = [bs "Apple pie"]
   /\ doc_of (bs "Y") [bs "Y"; bs ""; bs "second"] = [bs ""; bs "second"].
 Proof. vm_compute. repeat split; reflexivity. Qed.
+
+(* ---- runtimedoc as an instance of the pipeline's abstract generator (Model/Generators.v): what gengo.Execute's
+   per-package loop (Model/Pipeline.v: sorted types, dispatch, GenerateType calls, then the deferred callbacks) makes
+   of the generator — state (processed, helperWritten) created afresh, the helper emitted by the FIRST deferred
+   callback only — is [gen] above on that package alone, printed.  [print_item] (the text of one method / of the
+   helper) is a parameter.  Consequence for the pipeline theorems: Props/C05.v C05_runtimedoc_fresh_per_package. ---- *)
+Require Gengo.Model.Pipeline Gengo.Model.Generators Gengo.Proofs.GeneratorsPipe.
+Module GN := Gengo.Model.Generators.
+
+Theorem C16_is_pipeline_generator :
+  forall fd fs desc print_item fuel (E : Gengo.Model.Pipeline.env) p,
+    let g := GN.runtimedoc_gen fd fs desc print_item fuel in
+    (forall t, In t (Gengo.Model.Pipeline.pk_types p) ->
+       Gengo.Model.Pipeline.should_call E g p t = t_enabled (desc p t)) ->
+    List.length (Gengo.Model.Pipeline.pk_types p) <= fuel ->
+    Gengo.Model.Pipeline.go_out (Gengo.Model.Pipeline.gen_run E g p) = Gengo.Model.Pipeline.Done /\
+    Gengo.Model.Pipeline.go_body (Gengo.Model.Pipeline.gen_run E g p)
+      = GN.print_items print_item (gen fd fs (GN.rd_view desc p)) /\
+    Gengo.Model.Pipeline.go_ignore (Gengo.Model.Pipeline.gen_run E g p) = false.
+Proof. exact Gengo.Proofs.GeneratorsPipe.runtimedoc_gen_run. Qed.
+Print Assumptions C16_is_pipeline_generator.
